@@ -23,16 +23,18 @@ structure SInv (x : S1) (cN : Nat) : Prop where
   wt : x.waiting = true → x.q = [] ∧ x.owner.isSome = true ∧ x.notified = false
   nt : x.notified = true → x.q ≠ [] ∧ x.owner.isSome = true
   pd : x.pend = .detach → x.attached = true ∧ x.detaching = true ∧ x.away = x.commit
+  /-- `stream.len` is the number of queued regular events MINUS the time-out events taken so far -/
+  ln : x.len = (regCount x.q : Int) - x.tmos
 
 theorem sinv_init : SInv {} 0 := by
-  constructor <;> simp [tokens, b2n]
+  constructor <;> simp [tokens, b2n, regCount]
 
 macro "sinv_tac" : tactic =>
-  `(tactic| (constructor <;> simp_all [tokens, b2n, signalOwner, detachDue] <;> (try omega)))
+  `(tactic| (constructor <;> simp_all [tokens, b2n, signalOwner, detachDue, regCount] <;> (try omega)))
 
 theorem sinv_put (x : S1) (cN off seq : Nat) (h : SInv x cN) (hp : x.pend = .none) :
     SInv (x.put off seq) cN := by
-  obtain ⟨one, ne, em, det, own, wt, nt, pd⟩ := h
+  obtain ⟨one, ne, em, det, own, wt, nt, pd, ln⟩ := h
   unfold S1.put
   by_cases hq : x.q = []
   · have := em hq
@@ -46,7 +48,7 @@ theorem sinv_put (x : S1) (cN off seq : Nat) (h : SInv x cN) (hp : x.pend = .non
 
 theorem sinv_charge (x : S1) (cN : Nat) (h : SInv x cN) (hp : x.pend = .charge) :
     SInv x.charge (cN + 1) := by
-  obtain ⟨one, ne, em, det, own, wt, nt, pd⟩ := h
+  obtain ⟨one, ne, em, det, own, wt, nt, pd, ln⟩ := h
   unfold S1.charge
   by_cases hq : x.q = []
   · exact absurd hp (em hq).2.2
@@ -54,7 +56,7 @@ theorem sinv_charge (x : S1) (cN : Nat) (h : SInv x cN) (hp : x.pend = .charge) 
     sinv_tac
 
 theorem sinv_pop (x : S1) (cN p : Nat) (h : SInv x (cN + 1)) : SInv (x.pop p) cN := by
-  obtain ⟨one, ne, em, det, own, wt, nt, pd⟩ := h
+  obtain ⟨one, ne, em, det, own, wt, nt, pd, ln⟩ := h
   unfold S1.pop
   by_cases hq : x.q = []
   · have := (em hq).1; omega
@@ -64,7 +66,7 @@ theorem sinv_pop (x : S1) (cN p : Nat) (h : SInv x (cN + 1)) : SInv (x.pop p) cN
 /-- attach never reaches its Panicf -/
 theorem attach_ok (x : S1) (cN p : Nat) (h : SInv x cN) (hpop : x.popper = some p) :
     ¬ (x.attached = true ∨ x.detaching = true ∨ x.q = []) := by
-  obtain ⟨one, ne, em, det, own, wt, nt, pd⟩ := h
+  obtain ⟨one, ne, em, det, own, wt, nt, pd, ln⟩ := h
   intro hc
   rcases hc with hc | hc | hc
   · simp [tokens, b2n, hpop, hc] at one; omega
@@ -74,7 +76,7 @@ theorem attach_ok (x : S1) (cN p : Nat) (h : SInv x cN) (hpop : x.popper = some 
 theorem sinv_attach (x : S1) (cN p : Nat) (h : SInv x cN) (hpop : x.popper = some p) (hp : x.pend = .none) :
     SInv (x.attach p) cN := by
   have hok := attach_ok x cN p h hpop
-  obtain ⟨one, ne, em, det, own, wt, nt, pd⟩ := h
+  obtain ⟨one, ne, em, det, own, wt, nt, pd, ln⟩ := h
   unfold S1.attach
   have ha : x.attached = false := by cases h : x.attached <;> simp_all
   have hd : x.detaching = false := by cases h : x.detaching <;> simp_all
@@ -93,16 +95,16 @@ theorem sinv_get (x : S1) (cN p : Nat) (e : Ev) (rest : List Ev) (h : SInv x cN)
     (ho : x.owner = some p) (hw : x.waiting = false) (hq : x.q = e :: rest) (hp : x.pend = .none) :
     SInv (x.get e rest) cN := by
   have hok := owner_ok x cN p h ho
-  obtain ⟨one, ne, em, det, own, wt, nt, pd⟩ := h
+  obtain ⟨one, ne, em, det, own, wt, nt, pd, ln⟩ := h
   unfold S1.get
   have := ne (by simp [hq])
-  sinv_tac
+  cases ht : e.timeout <;> sinv_tac
 
 theorem sinv_leave (x : S1) (cN p : Nat) (h : SInv x cN)
     (ho : x.owner = some p) (hw : x.waiting = false) (hq : x.q = []) (hp : x.pend = .none) :
     SInv x.leave cN := by
   have hok := owner_ok x cN p h ho
-  obtain ⟨one, ne, em, det, own, wt, nt, pd⟩ := h
+  obtain ⟨one, ne, em, det, own, wt, nt, pd, ln⟩ := h
   unfold S1.leave
   have hn : x.notified = false := by
     cases hn : x.notified
@@ -113,7 +115,7 @@ theorem sinv_leave (x : S1) (cN p : Nat) (h : SInv x cN)
 
 theorem sinv_detach (x : S1) (cN : Nat) (h : SInv x cN) (hp : x.pend = .detach) :
     SInv x.detach cN := by
-  obtain ⟨one, ne, em, det, own, wt, nt, pd⟩ := h
+  obtain ⟨one, ne, em, det, own, wt, nt, pd, ln⟩ := h
   unfold S1.detach
   have := pd hp
   have hw : x.waiting = false := by
@@ -130,7 +132,7 @@ theorem sinv_detach (x : S1) (cN : Nat) (h : SInv x cN) (hp : x.pend = .detach) 
 
 theorem sinv_commit (x : S1) (cN seq : Nat) (h : SInv x cN) (hp : x.pend = .none) :
     SInv (x.doCommit seq) cN := by
-  obtain ⟨one, ne, em, det, own, wt, nt, pd⟩ := h
+  obtain ⟨one, ne, em, det, own, wt, nt, pd, ln⟩ := h
   unfold S1.doCommit
   by_cases hd : x.detaching = true
   · have := det hd
@@ -138,13 +140,13 @@ theorem sinv_commit (x : S1) (cN seq : Nat) (h : SInv x cN) (hp : x.pend = .none
   · sinv_tac
 
 theorem sinv_stale (x : S1) (cN seq : Nat) (h : SInv x cN) : SInv (x.stale seq) cN := by
-  obtain ⟨one, ne, em, det, own, wt, nt, pd⟩ := h
+  obtain ⟨one, ne, em, det, own, wt, nt, pd, ln⟩ := h
   unfold S1.stale
   constructor <;> simp_all [tokens]
 
 theorem sinv_bwait (x : S1) (cN p : Nat) (h : SInv x cN)
     (ho : x.owner = some p) (hq : x.q = []) (hp : x.pend = .none) : SInv x.bwait cN := by
-  obtain ⟨one, ne, em, det, own, wt, nt, pd⟩ := h
+  obtain ⟨one, ne, em, det, own, wt, nt, pd, ln⟩ := h
   unfold S1.bwait
   have := em hq
   sinv_tac
@@ -152,7 +154,7 @@ theorem sinv_bwait (x : S1) (cN p : Nat) (h : SInv x cN)
 theorem sinv_timeout (x : S1) (cN : Nat) (h : SInv x cN)
     (hb : x.waiting = true ∨ x.notified = true) (hq : x.q = []) (hp : x.pend = .none) :
     SInv x.timeout cN := by
-  obtain ⟨one, ne, em, det, own, wt, nt, pd⟩ := h
+  obtain ⟨one, ne, em, det, own, wt, nt, pd, ln⟩ := h
   have hw : x.waiting = true := by
     rcases hb with hb | hb
     · exact hb
